@@ -104,6 +104,51 @@ PROPS.update({
     },
 })
 
+PROPS.update({
+    "C16": {
+        "level_text": "Model checking of the real Gibbs sampler: explicit-state BFS to FIXPOINT over the sampler's reachable states for small datasets (DNA/protein, 3-4 sequences, widths 2-3), both modes, three dispatcher arms, driven by a scripted RNG whose every draw outcome is enumerated (initial starts, seed subsets and hold-out choices directly; the weighted start draw by monotone bisection on the 53-bit grid). Every transition is executed twice (determinism) and its pre/post state, public getters and Iteration are compared with a recount from the linear sequences. Because every transition out of every reachable consistent state is checked, runs of any length are covered (inductive invariant).",
+        "level_note": "Trusted: recount model; canonical key soundness (DESIGN C16; starts of inactive sequences and the step counters that influence control flow are in the key through hook H2); rand 0.8.8 draw semantics (ranges of the integer draws; monotonicity of WeightedIndex) - both asserted at run time: a mismatch is a machinery failure (exit 2), never a verdict.",
+        "technique": "explicit-state BFS to fixpoint over the real sampler with a scripted RNG, every RNG outcome enumerated (monotone bisection)",
+        "level": "model_checking",
+        "profiles": ["rel", "chk"],
+        "wall": {"quick": 200, "thorough": 3000},
+        "rule": "states = canonical sampler states reached; transitions = checked sampler steps (each re-executed from a fresh sampler); evaluations additionally count bisection probes.",
+        "assumptions": COMMON_ASSUMPTIONS + ["datasets in which the alignment is empty by construction (Zoops with < 2 seeds) are outside the statement"],
+    },
+})
+
+PROPS.update({
+    "C09": {
+        "level_text": 'Bounded-exhaustive exploration: every point of the product count-matrix menu (DNA widths 1..=3, protein 1..=2; thorough +1) x 5 pseudocount specs x 5 backgrounds x 4 logarithm bases is pushed through every conversion route (to_freq, to_weight, to_scoring, into_scoring, to_weight.to_scoring[_with_base], to_weight(None).rescale.to_scoring[_with_base]) and compared cell by cell with an f64 reference written from the definitions; every wildcard-free window is held against min_score/max_score; every ordered tuple of <=3 DNA sequences of length <=2 through from_sequences; Background::new on all 9^5 arrays over a value menu, from_counts/from_sequence(s) and FrequencyMatrix::new on complete small menus. Exploration: the property has no state, the quantifier is inputs.',
+        "level_note": 'Trusted: the 40-line f64 reference (count+pseudo)/total -> f/b -> log_base with the zero-background conventions; the derived tolerances gamma_{K+2}/gamma_{K+3}/gamma_{K+5} + 4 ulp for the logarithm (largest observed error = 0.26 x tolerance). Only the rejecting side of validation is demanded; FrequencyMatrix::new rejection is demanded for deviations > 0.0105 (documented tolerance 0.01). Rows with total 0 (0/0) are skipped.',
+        "technique": 'bounded-exhaustive product enumeration of count/pseudocount/background/base menus and invalid-input menus against an f64 reference model',
+        "level": "exploration",
+        "package": "vx-pwm",
+        "profiles": ["rel", "chk"],
+        "wall": {"quick": 150, "thorough": 3000},
+        "rule": "Complete product enumeration of the C09 menus (matrices x pseudocounts x backgrounds x bases, all (K-1)^M windows, all sequence tuples, all 9^5 background arrays); one evaluation = one menu point / window / tuple / array, distinct by construction of the mixed-radix index.",
+        "assumptions": COMMON_ASSUMPTIONS + [
+            "a scalar pseudocount means that value on every non-wildcard symbol and 0 on the wildcard",
+            "the conversions are cell-wise / row-wise arithmetic without data-dependent control flow other than the b == 0 tests, so the row menu (zero, equal, skewed, 1e6-scale, wildcard-only rows) x background menu (zero / non-zero wildcard, zero non-wildcard) covers every branch combination",
+            "in the rescale route, columns whose old background is 0 and new one is not are not compared (the frequency was discarded by to_weight(None))",
+        ],
+    },
+    "C10": {
+        "level_text": 'Bounded-exhaustive exploration: all 2800 DNA count matrices of width 1..=4 over the C09 row menu x pseudocounts x backgrounds: rc(rc(m)) == m bit for bit and rc(m) == definition for count/frequency/weight/scoring matrices; rc commutes with to_freq/to_weight/to_scoring under 5x5 strand-symmetric pseudocounts/backgrounds; ALL DNA sequences of length <= 6 (thorough <= 7) x every menu scoring matrix with M <= 3 x {generic pipeline, dispatcher arms generic/sse2/avx2}: rc(m).score(rc(s))[L-M-i] == m.score(s)[i].',
+        "level_note": 'Trusted: complement table A<->T, C<->G, N<->N on ranks A,C,T,G,N; summation bound 2*gamma_{M-1}*sum|terms| (exact equality demanded for the integer-valued matrices and for -inf); commutation of to_freq allowed 2*gamma_{K+2} for the row-sum order, the element-wise steps must be bit-identical.',
+        "technique": 'bounded-exhaustive enumeration of matrix menus x all short DNA sequences x backends; involution, commutation and mirrored-score oracles',
+        "level": "exploration",
+        "package": "vx-pwm",
+        "profiles": ["rel", "chk"],
+        "wall": {"quick": 150, "thorough": 3000},
+        "rule": "Complete product: matrix menus x {count, frequency, weight, scoring}; all 5^L sequences L<=6 (7) x all menu scoring matrices M<=3 x 4 pipelines; one evaluation = one (sequence, matrix, pipeline) or one (matrix point, identity).",
+        "assumptions": COMMON_ASSUMPTIONS + [
+            "reverse_complement is a fixed cell permutation independent of cell values, so the asymmetric menu rows decide it for all contents",
+            "scoring kernels are data-oblivious; positions/shape classes beyond L<=7 are C01's business",
+        ],
+    },
+})
+
 # properties not claimed (with reason); kept current as checks are added
 NOT_APPLICABLE = [
     {"property_id": p, "reason": "check not built yet in this round (planned in DESIGN.md section 2); not claimed until its harness exists"}
